@@ -331,7 +331,7 @@ pub fn run(args: &Args) {
     report.part("Queries and OodFrame for widths 1..255 x base / quadratic / cubic elements; batch Merkle proofs for all index subsets of 8 leaves", s.evals - e0, s.nontrivial - n0, json!({}));
     let (e0, n0) = (s.evals, s.nontrivial);
     // proofs: a sample of the C01 lattice (every 7th point in the quick tier)
-    let cases: Vec<Case> = build_cases(false).into_iter().filter(|c| c.cfg.valid_for(&c.shape).is_ok()).step_by(if thorough { 2 } else { 7 }).collect();
+    let cases: Vec<Case> = build_cases(false).into_iter().filter(|c| c.cfg.valid_for(&c.shape).is_ok()).step_by(if thorough { 1 } else { 3 }).collect();
     let outs = mck::par_map(cases.len(), |i| {
         let mut s = S::new();
         let c = &cases[i];
@@ -346,7 +346,7 @@ pub fn run(args: &Args) {
     report.sample(json!({"type": "TraceInfo", "value": "main=255, aux=0, len=2^3, meta=65535 bytes", "oracle": "read_from(write_into(x)) == x and the reader is exhausted"}));
     report.exhaustive = true;
     report.rule = "one case per (type, constructor-accepted value); non-trivial = values on a boundary the property names (255 columns, zero random elements with an auxiliary segment, 65535 metadata bytes, partition settings, widths up to 255) or compound objects".into();
-    report.bounds = json!({"proof_sample_step": if thorough { 2 } else { 7 }});
+    report.bounds = json!({"proof_sample_step": if thorough { 1 } else { 3 }});
     report.assumptions = vec!["values the public constructors refuse (panic) are outside the quantifier".into(), "FRI proofs over the whole FRI lattice are round-tripped by C08; batch Merkle proofs over all subsets up to 16 leaves by C18".into()];
     report.finish(args)
 }
